@@ -97,7 +97,7 @@ fn events_at(positions: &[usize], start: usize, level: i16, v1: bool) -> Vec<Ev>
 pub fn run(tier: Tier) -> Report {
     let rep = Report::new("C02", "intra", tier);
     let stats = (AtomicU64::new(0), AtomicU64::new(0));
-    let maxdim: u16 = if tier.thorough() { 80 } else { 40 };
+    let maxdim: u16 = if tier.thorough() { 128 } else { 40 };
 
     // ---- S-size
     let mut pics = vec![];
@@ -166,7 +166,8 @@ pub fn run(tier: Tier) -> Report {
 
     // ---- S-event: every short code, every escape run x boundary level x form x q
     let mut pics = vec![];
-    let qs: &[u8] = if tier.thorough() { &[1, 2, 3, 8, 15, 16, 30, 31] } else { &[1, 2, 15, 31] };
+    let all_q: Vec<u8> = (1..=31).collect();
+    let qs: &[u8] = if tier.thorough() { &all_q } else { &[1, 2, 15, 31] };
     let mut push_event = |ev: Ev, last: bool, q: u8, hdrs: &[Hdr]| {
         for hdr in hdrs {
             let mut blocks: [Blk; 6] = std::array::from_fn(|b| Blk::dc(dc_code(1, b)));
@@ -226,6 +227,24 @@ pub fn run(tier: Tier) -> Report {
             }
         }
     }
+    if tier.thorough() {
+        // every level of every escape form x every quantizer on four runs
+        for run in [0u8, 1, 26, 62] {
+            for &q in qs {
+                for last in [false, true] {
+                    for lv in (-127..=127i16).filter(|l| *l != 0) {
+                        push_event(Ev { run, level: lv, form: Form::Esc8 }, last, q, &v0);
+                    }
+                    for lv in (-63..=63i16).filter(|l| *l != 0) {
+                        push_event(Ev { run, level: lv, form: Form::Esc7 }, last, q, &v1);
+                    }
+                    for lv in (-1023..=1023i16).filter(|l| *l != 0) {
+                        push_event(Ev { run, level: lv, form: Form::Esc11 }, last, q, &v1);
+                    }
+                }
+            }
+        }
+    }
     run_pics(&rep, "event", &pics, &stats);
     rep.add_nontrivial(pics.len() as u64);
 
@@ -244,6 +263,38 @@ pub fn run(tier: Tier) -> Report {
         }
     }
     run_pics(&rep, "chain", &pics, &stats);
+
+    // ---- block-type sequences: repeated identical sparse blocks interleaved with dense ones
+    let mut pics = vec![];
+    {
+        let nb = if tier.thorough() { 8 } else { 6 };
+        for version in [0u8, 1] {
+            for code in 0..4usize.pow(nb as u32) {
+                // luma blocks in raster order of a 32x16 picture: MB0.b0 MB0.b1 MB1.b0 MB1.b1 MB0.b2 MB0.b3 MB1.b2 MB1.b3
+                let raster = [(0usize, 0usize), (0, 1), (1, 0), (1, 1), (0, 2), (0, 3), (1, 2), (1, 3)];
+                let mut mbs: Vec<[Blk; 6]> = (0..2).map(|_| std::array::from_fn(|_| Blk::dc(100))).collect();
+                let mut c = code;
+                for (k, &(mb, b)) in raster.iter().enumerate() {
+                    let ty = if k < nb { c % 4 } else { [3usize, 1][k - nb] };
+                    c /= 4;
+                    mbs[mb][b].ev = match ty {
+                        0 => vec![],
+                        1 => events_at(&row0[1..4], 1, 3, version == 1),
+                        2 => events_at(&col0[1..4], 1, 3, version == 1),
+                        _ => events_at(&[1, 2, 4, 7, 12], 1, 2, version == 1),
+                    };
+                }
+                // chroma: a column-only and a row-only block with the same vector in Cb, dense then sparse in Cr
+                mbs[0][4].ev = events_at(&col0[1..4], 1, 3, version == 1);
+                mbs[1][4].ev = events_at(&row0[1..4], 1, 3, version == 1);
+                mbs[0][5].ev = events_at(&[1, 2, 4, 7, 12], 1, 2, version == 1);
+                mbs[1][5].ev = events_at(&row0[1..4], 1, 3, version == 1);
+                pics.push(Pic { hdr: sor(32, 16, version, 6), mbs: mbs.into_iter().map(|blocks| Mb::Coded { kind: Kind::Intra, dquant: 0, mvd: vec![], blocks }).collect() });
+            }
+        }
+    }
+    run_pics(&rep, "block-type-sequences", &pics, &stats);
+    rep.add_nontrivial(pics.len() as u64);
 
     // ---- S-dc: every INTRADC code in every block position
     let mut pics = vec![];
@@ -318,7 +369,7 @@ pub fn run(tier: Tier) -> Report {
     rep.extra("samples_compared", json!(stats.0.load(Ordering::Relaxed)));
     rep.extra("samples_accepted_inside_rounding_band", json!(stats.1.load(Ordering::Relaxed)));
     rep.set_rule(&format!(
-        "intra pictures enumerated as syntax trees, encoded by an independent bit writer, decoded by H263State and by a naive f64 reference decoder: every size 1..={maxdim}^2 (+ large/odd extras) x {{Sorenson v0, v1, H.263 custom/baseline}} with position-coded content; all 64 CBP x 5 sparsity shapes x {{INTRA, INTRA+Q}} x 3 sizes x 2 versions; every short TCOEF code x sign, escape run x boundary levels x 3 forms x quantizers {:?}; two-event chains; every INTRADC x 6 positions; all DQUANT triples x 31 PQUANT; stuffing/PEI combinations; \
+        "intra pictures enumerated as syntax trees, encoded by an independent bit writer, decoded by H263State and by a naive f64 reference decoder: every size 1..={maxdim}^2 (+ large/odd extras) x {{Sorenson v0, v1, H.263 custom/baseline}} with position-coded content; all 64 CBP x 5 sparsity shapes x {{INTRA, INTRA+Q}} x 3 sizes x 2 versions; every short TCOEF code x sign, escape run x boundary levels x 3 forms x quantizers {:?}; two-event chains; all assignments of DC-only / row-only / column-only / dense to the luma blocks of a 32x16 picture in raster order with identical sparse vectors; every INTRADC x 6 positions; all DQUANT triples x 31 PQUANT; stuffing/PEI combinations; \
          non-trivial = picture whose size is not a multiple of 16, or that carries AC events / DQUANT",
         qs
     ));
